@@ -246,6 +246,7 @@ def _catalog(rng, kind, zoom):
 def ex_single(ctx, zoom, seed=0):
     from csep.core.regions import QuadtreeGrid2D
     rc = {"exec": "single", "args": {"zoom": zoom, "seed": seed}}
+    ctx.current_case = rc
     tags = {"ctor": "from_single_resolution", "zoom": zoom}
     ok, reg, tb = ctx.call(QuadtreeGrid2D.from_single_resolution, zoom)
     if not ok:
@@ -264,6 +265,7 @@ def ex_catalog(ctx, kind, threshold, zoom, seed):
     lon, lat = _catalog(rng, kind, zoom)
     cat = fixtures.catalog(lon, lat, numpy.full(len(lon), 5.0))
     rc = {"exec": "catalog", "args": {"kind": kind, "threshold": threshold, "zoom": zoom, "seed": seed}}
+    ctx.current_case = rc
     tags = {"ctor": "from_catalog", "kind": kind}
     ok, reg, tb = ctx.call(QuadtreeGrid2D.from_catalog, cat, threshold, zoom=zoom)
     if not ok:
@@ -305,6 +307,7 @@ def ex_quadkeys(ctx, seed, maxdepth=5, keep=0.7, shuffle=True):
     if shuffle:
         qk = [qk[i] for i in rng.permutation(len(qk))]
     rc = {"exec": "quadkeys", "args": {"seed": seed, "maxdepth": maxdepth, "keep": keep, "shuffle": shuffle}}
+    ctx.current_case = rc
     tags = {"ctor": "from_quadkeys", "covering": keep >= 1.0, "shuffled": shuffle}
     ok, reg, tb = ctx.call(QuadtreeGrid2D.from_quadkeys, qk)
     if not ok:
@@ -318,6 +321,7 @@ def ex_quadkeys(ctx, seed, maxdepth=5, keep=0.7, shuffle=True):
 def ex_california(ctx, seed=0):
     from csep.core import regions
     rc = {"exec": "california", "args": {"seed": seed}}
+    ctx.current_case = rc
     tags = {"ctor": "california_quadtree_region"}
     ok, reg, tb = ctx.call(regions.california_quadtree_region)
     if not ok:
